@@ -62,6 +62,31 @@ theorem C07_search_reproducible (o : Opts) (ops : List Op) (g : Gen) (seed : Nat
     outputs g seed (searchProgram o ops) w₁ = outputs g seed (searchProgram o ops) w₂ :=
   C07_noninterference_closed g seed _ w₁ w₂ (C07_seed_threading o ops)
 
+/-- **C07 (earlier searches of the interpreter).**  What a well-initialised search proposes does not depend on
+which searches ran EARLIER in the same interpreter: for every list of earlier programs (any instructions — other
+classes, designs, surrogates, draws from global generators, writes to process-level caches — each with its own
+seed) the search started in the world they leave behind proposes what it proposes in any other world, in
+particular in a fresh interpreter. -/
+theorem C07_earlier_searches_irrelevant (g : Gen) (seed : Nat) (p : List Instr) (earlier : List (Nat × List Instr))
+    (w w' : World) (hwf : WellInit p = true) :
+    outputs g seed p (worldAfter g earlier w) = outputs g seed p w' :=
+  C07_noninterference_closed g seed p _ w' hwf
+
+/-- … for the hand model of the search classes: for all options, all ask/tell scripts, all earlier searches. -/
+theorem C07_search_history_independent (o : Opts) (ops : List Op) (g : Gen) (seed : Nat)
+    (earlier : List (Nat × List Instr)) (w w' : World) :
+    outputs g seed (searchProgram o ops) (worldAfter g earlier w) = outputs g seed (searchProgram o ops) w' :=
+  C07_earlier_searches_irrelevant g seed _ earlier w w' (C07_seed_threading o ops)
+
+/-- … and for the program of the generated table (every site the configuration reaches, `rounds` rounds): the
+table obligation `C07_sites_seeded` also excludes reachable writes to class-level / module-level mutable objects
+(rows on the stream `processState`). -/
+theorem C07_table_history_independent (cfg : Config) (rounds : Nat) (g : Gen) (seed : Nat)
+    (earlier : List (Nat × List Instr)) (w w' : World) :
+    outputs g seed (tableProgram Gen.sites cfg rounds) (worldAfter g earlier w) =
+    outputs g seed (tableProgram Gen.sites cfg rounds) w' :=
+  C07_earlier_searches_irrelevant g seed _ earlier w w' (wf_tableProgram Gen.sites cfg C07_sites_seeded rounds).1
+
 /-- **C07 (different seeds, partial).**  Full statement (not provable about a model that abstracts the
 generator and the proposal function): *different seeds give different proposal sequences*.  Proved
 part: when the generator's first value is injective in the seed, the observations of any program that
@@ -112,6 +137,28 @@ the hash-seed stream between two seeded draws makes the output depend on the has
 example : outputs lcg 1 [.useSeed 0, .draw 0 (.seeded 0), .draw 1 .hashSeed, .output] (mkWorld 5 1) ≠
           outputs lcg 1 [.useSeed 0, .draw 0 (.seeded 0), .draw 1 .hashSeed, .output] (mkWorld 5 2) := by
   decide +kernel
+
+/-- non-vacuity of `C07_earlier_searches_irrelevant`: two earlier searches (other options, seeds 7 and 42) really
+change the world — the root generator object and the global NumPy stream are elsewhere — and the search under
+test still proposes what it proposes in a fresh world -/
+def exEarlier : List (Nat × List Instr) :=
+  [(7, searchProgram { exOpts with strategy := .qlcb, cfgSpace := false } exOps ++ [.draw 1 .numpyGlobal]),
+   (42, searchProgram exOpts [.ask 2 false true])]
+example : worldAfter lcg exEarlier (mkWorld 0 1) (.seeded 0) ≠ mkWorld 0 1 (.seeded 0) ∧
+          worldAfter lcg exEarlier (mkWorld 0 1) .numpyGlobal ≠ mkWorld 0 1 .numpyGlobal := by decide +kernel
+example : outputs lcg 42 (searchProgram exOpts exOps) (worldAfter lcg exEarlier (mkWorld 0 1)) =
+          outputs lcg 42 (searchProgram exOpts exOps) (mkWorld 0 1) := by decide +kernel
+
+/-- **witness of a class-level memo keyed without the seed** (an initial design cached in a dict that is a class
+attribute): the program is rejected by the checker; alone in a fresh interpreter (empty cache) it proposes what
+the un-memoised program proposes, after an earlier search with another seed it proposes that search's design. -/
+example : WellInit memoDesign = false := by decide
+example : outputs lcg 42 memoDesign (mkWorld 0 0) =
+          outputs lcg 42 [.useSeed 0, .fork (.seeded 0) 4 true, .draw 102 (.seeded 4), .output] (mkWorld 0 0) := by decide +kernel
+example : outputs lcg 42 memoDesign (worldAfter lcg [(7, memoDesign)] (mkWorld 0 0)) ≠
+          outputs lcg 42 memoDesign (mkWorld 0 0) := by decide +kernel
+example : outputs lcg 42 memoDesign (worldAfter lcg [(7, memoDesign)] (mkWorld 0 0)) =
+          outputs lcg 7 memoDesign (mkWorld 0 0) := by decide +kernel
 
 /-- an unseeded `Search.__init__` (random_state=None, outside the property) is rejected by the checker -/
 example : WellInit (unseededInit ++ script exOpts exOps) = false := by decide +kernel
